@@ -31,7 +31,7 @@ def cfg_fn(rng):
     return cfg
 
 
-WEIGHTS = {"scenario": 0.6, "undo": 5, "redo": 3, "delete_node": 5, "add_node": 5, "update_attrs": 0.2,
+WEIGHTS = {"ctrl": 0.8, "scenario": 0.6, "undo": 5, "redo": 3, "delete_node": 5, "add_node": 5, "update_attrs": 0.2,
            "delete_edge": 4}
 
 
@@ -40,6 +40,10 @@ def plan(tier, seed):
 
 
 def _recompute(gen, tracks):
+    if gen.rng.random() < 0.5:
+        # or: save, load, and go on with the loaded object (its id tables and counters are
+        # initialised from the ids found on the graph)
+        return {"op": "reload"}
     f = tracks.features
     keys = gen.rng.choice([[f.tracklet_key, f.lineage_key], [f.tracklet_key],
                            [f.lineage_key]])
@@ -67,7 +71,7 @@ def _edit(gen, tracks):
 # after the random part: the id features are recomputed in bulk (ids renumbered 1..n, lookup
 # tables rebuilt), then ids are issued and used again. The older history refers to the old
 # numbering and is not walked any more after this point.
-TAIL = [_recompute, _add_on_next_track, _edit, _edit]
+TAIL = [_recompute, _add_on_next_track, _edit, _edit, _edit]
 
 
 def run_shard(spec):
